@@ -29,7 +29,7 @@ META['explanation'] += ' ' + 'R4: no function between the wire bytes of a hello 
 
 META['explanation'] += ' ' + 'R7: the decoders behind the sections (generic and overriding) hand out the member whose code is on the wire (shared with C10.R2).'
 
-META['explanation'] += ' ' + 'R8: hello and extension attributes are composed as stored (shared with C01.R2).'
+META['explanation'] += ' ' + 'R8: hello and extension attributes are composed as stored (shared with C01.R2). R9: no vector class redefines its construction or a sequence method (shared with C12.R13).'
 HERE = os.path.dirname(os.path.dirname(os.path.abspath(__file__)))
 
 
@@ -76,6 +76,12 @@ def check(ctx, report):
     fields_written_as_stored(ctx, report, RULE='C15.R8', kinds=None, modules={'cryptoparser.tls.subprotocol', 'cryptoparser.tls.extension'},
                              title='hello and extensions: attributes are composed as stored (the fingerprint of the composed bytes is the fingerprint of the object)')
     report.floor('C15.R8', 200, 'fields of hello and extension structures')
+    # JA3 lists cipher suites, extensions, groups and point formats in the order the hello carried them: the vectors that hold them
+    # take the items as given and answer like the list of them (no vector class sorts on construction or redefines an edit); shared
+    # with C12.R13
+    from .c12 import sequence_interface_inherited
+    sequence_interface_inherited(ctx, report, RULE='C15.R9',
+                                 title='the vectors JA3 reads keep the order they were given: no vector class redefines its construction or a sequence method')
     c = model.cls('TlsHandshakeClientHello')
     f = c.methods.get('ja3')
     if f is None:
